@@ -1669,3 +1669,10 @@ package gorums
 //@   props C04 C17
 //@   requires s != nil && s.srv != nil && s.srv.handlers != nil
 //@   ensures[C17.a] in(method, s.srv.handlers) && forall(k, "Str", k != method ==> (in(k, s.srv.handlers) <==> old(in(k, s.srv.handlers))))
+
+// Package-level variables the contracts read as constants: assigned by the package initialiser only.
+//@ global Incomplete immutable props C02 C11
+//@ global streamDownErr immutable props C07
+//@ global ID immutable props C19
+//@ global Port immutable props C19
+//@ global LastNodeError immutable props C19
